@@ -634,6 +634,35 @@ fn gen_c17(ctx: &mut Ctx) {
           }
         }
     }
+    // the bridge in front of a bus that may answer ANY message (a sign never answers data, counts, pixels-complete,
+    // goodbye or unknown frames, another bus might): a frame is written back exactly when the bus answered
+    {
+        let a = 3u16;
+        let requests = ["HE.3", "QS.3", "RO.3.RCF", "SD.0.0102", "SD.16.-", "DC.1", "PC.3", "GB.3", "UN.3.9.01", "UN.3.2.FF00", "RS.3.PLD", "AO.3.RPX"];
+        let answers = ["N".to_string(), format!("RS.{}.PLD", a), format!("AO.{}.RCF", a), "DC.7".to_string(), format!("UN.{}.9.0102", a), format!("HE.{}", a)];
+        let mut k = 0usize;
+        for (ri, rq) in requests.iter().enumerate() {
+            for (ai, ans) in answers.iter().enumerate() {
+                // single line, and the same line after a blank line and before another request (3 steps)
+                for shape in 0..2 {
+                    let (tape, script): (Vec<u8>, Vec<String>) = if shape == 0 {
+                        (enc_msg(rq), vec![ans.clone()])
+                    } else {
+                        ([b"\r\n".to_vec(), enc_msg(rq), enc_msg(requests[(ri + 5) % requests.len()])].concat(), vec![answers[(ai + 1) % answers.len()].clone(), ans.clone(), answers[(ai + 3) % answers.len()].clone()])
+                    };
+                    k += 1;
+                    let ws: Vec<String> = if k % 5 == 0 { vec!["A0".into(), "I".into(), "A2".into()] } else { vec![] };
+                    let line = format!("ODS {} {} / {}", hex_of_bytes(&tape), script.join(" "), ws.join(" ")).trim_end().to_string();
+                    let res = ctx.case(line.clone(), true, "bridge-over-scripted-bus");
+                    if shape == 0 {
+                        let want_written = if ans == "N" { "-".to_string() } else { hex_of_bytes(&enc_msg(ans)) };
+                        let want = format!("OK fwd={} | {} | -", rq, want_written);
+                        ctx.monitor(res == want, "C17-bridge", &line, &format!("wanted [{}] got [{}]", want, res));
+                    }
+                }
+            }
+        }
+    }
     // bridge after some traffic
     let line = format!("OD 2 3 M 5 A | RO.3.RCF | {} 2", hex_of_bytes(&[enc_msg(&format!("SD.0.{}", hex_of_bytes(SIGN_TYPES[2].to_bytes()))), enc_msg("DC.1")].concat()));
     ctx.case(line, true, "bridge-after-traffic");
